@@ -15,7 +15,7 @@ INCS    := -I$(REPO)/src -I$(REPO)/contrib/src -I$(HOOKS) -I$(REPO)/contrib/src/
 CXXFLAGS := -std=gnu++11 -O1 -g -Wno-deprecated-declarations $(DEFS) $(INCS)
 LIBS    := -L$(HOOKS)/lib -Wl,-rpath,$(HOOKS)/lib -luscxml_transform -luscxml -lxerces-c -levent -levent_pthreads -lpthread
 
-HARNESSES := $(BIN)/interp_trace $(BIN)/fn_replay $(BIN)/xform $(BIN)/mt_queue $(BIN)/mt_teardown $(BIN)/mt_delay $(BIN)/mt_invoke $(BIN)/json_replay $(BIN)/json_replay_asan
+HARNESSES := $(BIN)/interp_trace $(BIN)/fn_replay $(BIN)/xform $(BIN)/mt_queue $(BIN)/mt_teardown $(BIN)/mt_delay $(BIN)/mt_invoke $(BIN)/json_replay $(BIN)/json_replay_asan $(BIN)/validate_run
 
 .PHONY: setup build libs harness clean
 setup: build
